@@ -51,6 +51,7 @@ def parseReq (j : Json) : Req :=
   let itemName (b : Json) : Option String := (b.getObjVal? "name").toOption.bind (·.getStr?.toOption)
   let itemText (b : Json) : String :=
     "{\"name\":" ++ jsonStrLit ((itemName b).getD "") ++ ",\"count\":" ++ toString (((b.getObjVal? "count").toOption.bind (·.getInt?.toOption)).getD 0) ++ "}"
+  let itemCount (b : Json) : Int := ((b.getObjVal? "count").toOption.bind (·.getInt?.toOption)).getD 0
   let name := parsed.bind itemName
   let count := (parsed.bind fun b => (b.getObjVal? "count").toOption.bind (·.getInt?.toOption)).getD 0
   -- Employee{name required; dept required + member of the generated dept_enum validator}
@@ -58,16 +59,21 @@ def parseReq (j : Json) : Req :=
   let dept := (parsed.bind fun b => (b.getObjVal? "dept").toOption.bind (·.getStr?.toOption)).getD ""
   let empOk := parsed.isSome && (name.map (!·.isEmpty)).getD false && ["eng", "r&d"].contains dept
   let empText := "{\"name\":" ++ jsonStrLit (name.getD "") ++ ",\"dept\":" ++ jsonStrLit dept ++ "}"
+  -- Wrap{meta Meta `required` (a no-op on a by-value struct); name required}
+  let isWrap := jstrD j "bodyType" = "Wrap"
+  let note := (parsed.bind fun b => (b.getObjVal? "meta").toOption.bind fun m => (m.getObjVal? "note").toOption.bind (·.getStr?.toOption)).getD ""
+  let wrapOk := parsed.isSome && (name.map (!·.isEmpty)).getD false
+  let wrapText := "{\"meta\":{\"note\":" ++ jsonStrLit note ++ "},\"name\":" ++ jsonStrLit (name.getD "") ++ "}"
   { method := jstrD j "method", segs := segs, query := q,
     headers := (objEntries ((j.getObjVal? "headers").toOption.getD Json.null)).map fun (k, v) => (k, v.getStr?.toOption.getD ""),
     form := (objEntries ((j.getObjVal? "form").toOption.getD Json.null)).filterMap fun (k, v) =>
       match v with | .arr xs => xs[0]?.map fun x => (k, x.getStr?.toOption.getD "") | _ => none,
     hasBody := !body.isEmpty,
-    bodyOk := if isEmployee then empOk else (match parsed with
-      | some (.arr xs) => xs.toList.all fun x => ((itemName x).map (!·.isEmpty)).getD false     -- every element is validated
-      | some _ => (name.map (!·.isEmpty)).getD false
+    bodyOk := if isEmployee then empOk else if isWrap then wrapOk else (match parsed with
+      | some (.arr xs) => xs.toList.all fun x => ((itemName x).map (!·.isEmpty)).getD false && itemCount x ≥ 0    -- every element is validated
+      | some _ => (name.map (!·.isEmpty)).getD false && count ≥ 0      -- Item{name required; count gte=0}
       | none => false),
-    body := if isEmployee then empText else (match parsed with
+    body := if isEmployee then empText else if isWrap then wrapText else (match parsed with
       | some (.arr xs) => "[" ++ " ".intercalate (xs.toList.map itemText) ++ "]"
       | _ => "{\"name\":" ++ jsonStrLit (name.getD "") ++ ",\"count\":" ++ toString count ++ "}"),
     deny := strList j "deny" }
@@ -178,6 +184,7 @@ def checkRig (prop : String) (input : Json) (impl : Json) : PropOut := Id.run do
         | some (sr, _) => (templateSegs sr.ctrlPath sr.r.path).any fun t => isVar t && (varName t).any (fun c => c = '-' || c = '.')
         | none => false
       let mut views : List (String × (String × List String)) := []
+      let mut bodies : List (String × String × String) := []      -- engine, status class, canonical body
       for (e, rs) in engines do
         let rl := (rs.getArr?.toOption.getD #[]).toList
         -- C12-F2: the router could not be set up at all (gin / httprouter: two names for one variable position)
@@ -191,6 +198,11 @@ def checkRig (prop : String) (input : Json) (impl : Json) : PropOut := Id.run do
         | some x =>
           let got : String × List String := (statusClass ((x.getObjVal? "status").toOption.bind (·.getInt?.toOption) |>.getD 0), strList x "log")
           views := views ++ [(e, got)]
+          let bodyText := jstrD x "body"
+          let canonBody := match Json.parse bodyText with
+            | .ok j => j.compress
+            | .error _ => bodyText.trimAscii.toString
+          bodies := bodies ++ [(e, got.1, canonBody)]
           if got ≠ want then
             let cls := diffClass denyStatus want got
             -- C12-F1: percent-encoded PATH values reach the controller undecoded on fiber (always) and on
@@ -207,6 +219,14 @@ def checkRig (prop : String) (input : Json) (impl : Json) : PropOut := Id.run do
             if relevant then
               fails := fails ++ [fid ++ s!"{cls}:{e}:{kind}:{jstrD rq "method"} {jstrD rq "path"}:want={want.1}{want.2}:got={got.1}{got.2}"]
       if prop = "C12" then
+        -- … and with a JSON-equivalent body, wherever the five answer with the same status (a request no engine
+        -- serves gets each framework's own not-found page)
+        let served := bodies.filter fun (_, st, _) => st ≠ "not-served"
+        if served.length = bodies.length && (served.map (·.2.1)).eraseDups.length = 1 && (served.map (·.2.2)).eraseDups.length > 1 then
+          let groups := (served.map (·.2.2)).eraseDups
+          let minority := groups.map fun g => ((served.filter (·.2.2 = g)).map (·.1), g)
+          let smallest := (minority.toArray.qsort (fun a b => a.1.length < b.1.length)).toList.head?
+          fails := fails ++ [(if encodedPath then "C12-F1:" else if emptyHeader then "C12-F3:" else "") ++ s!"bodies-differ:{kind}:{jstrD rq "method"} {jstrD rq "path"}:{(smallest.map fun (es, g) => s!"{es}={g.take 200}").getD ""}"]
         -- interchangeability: whatever the model says, the five answers agree
         let distinct := (views.map (·.2)).eraseDups
         if distinct.length > 1 then
